@@ -929,3 +929,108 @@ Lemma metachar_witnesses :
     = Some (lit "created.Events.created")
   /\ topic fixed Go Pub (lit ".") (lit "Events") (lit "created") (lit "{op}") [lit "bob"] = None.
 Proof. repeat split; vm_compute; reflexivity. Qed.
+
+(** ** publisher and subscriber agree whenever both are defined — no side condition on the
+    prefix, the delimiter or the names, pinned or repaired generators *)
+Lemma run_body_decl_indep : forall l b d1 d2 en e1 e2,
+  run_body l b d1 en = Some e1 -> run_body l b d2 en = Some e2 -> e1 = e2.
+Proof.
+  induction b as [|[x e] b IH]; intros d1 d2 en e1 e2 H1 H2.
+  - cbn in *. congruence.
+  - rewrite run_body_cons in H1, H2. destruct (eval l e en) as [v|]; [|discriminate].
+    destruct (mem x d1 && negb (redecl_ok l)); [discriminate|].
+    destruct (mem x d2 && negb (redecl_ok l)); [discriminate|].
+    eapply IH; eassumption.
+Qed.
+
+Lemma eval_prefix_env : forall h delim pfx g en en',
+  lookups (vars_of g) en = lookups (vars_of g) en' ->
+  eval Go (prefix_expr h delim pfx g) en = eval Go (prefix_expr h delim pfx g) en'.
+Proof.
+  intros h delim pfx g en en' H. unfold prefix_expr. destruct (vars_of g) as [|v vs] eqn:V.
+  - destruct pfx; reflexivity.
+  - cbn [eval]. rewrite H. reflexivity.
+Qed.
+
+Theorem pub_sub_agree_when_defined : forall q l delim sc op pfx vals a b,
+  topic q l Pub delim sc op pfx vals = Some a ->
+  topic q l Sub delim sc op pfx vals = Some b -> a = b.
+Proof.
+  intros q l delim sc op pfx vals a b Ha Hb. unfold topic in Ha, Hb.
+  destruct (parse_prefix pfx) as [g|] eqn:PP0; [|discriminate]. cbv zeta in Ha, Hb.
+  apply parse_prefix_segments in PP0. subst g.
+  destruct (negb (Nat.eqb (List.length (vars_of (segments pfx))) (List.length vals))); [discriminate|].
+  destruct (negb (params_ok l Pub op (vars_of (segments pfx)))); [discriminate|].
+  destruct (negb (params_ok l Sub op (vars_of (segments pfx)))); [discriminate|].
+  destruct l.
+  - (* Go *)
+    cbn [emit] in Ha, Hb. cbv zeta in Ha, Hb. unfold run_prog in Ha, Hb.
+    cbn [p_consts p_body run_consts] in Ha, Hb.
+    set (en0 := combine (vars_of (segments pfx)) vals ++ []) in *.
+    set (ps := prefix_expr pct_s delim pfx (segments pfx)) in *.
+    set (te := EFmt (pct_s ++ title sc ++ (if go_dot q then [46] else delim) ++ pct_s) [n_prefix; n_op]) in *.
+    (* publisher: prefix, op, topic *)
+    rewrite run_body_cons in Ha. cbn [redecl_ok negb] in Ha. rewrite andb_true_r in Ha.
+    destruct (eval Go ps en0) as [P|] eqn:EP; [|discriminate].
+    destruct (mem n_prefix (fixed_params Go Pub op ++ vars_of (segments pfx))); [discriminate|].
+    rewrite run_body_cons in Ha. cbn [redecl_ok negb eval] in Ha. rewrite andb_true_r in Ha.
+    destruct (unq 34 op) as [o|] eqn:EO; [|discriminate].
+    destruct (mem n_op (n_prefix :: fixed_params Go Pub op ++ vars_of (segments pfx))) eqn:MO; [discriminate|].
+    assert (MV : mem n_op (vars_of (segments pfx)) = false).
+    { cbn [mem] in MO. apply orb_false_iff in MO. destruct MO as [_ MO]. rewrite mem_app in MO.
+      apply orb_false_iff in MO. tauto. }
+    rewrite run_body_cons in Ha. cbn [redecl_ok negb] in Ha. rewrite andb_true_r in Ha.
+    unfold te in Ha. cbn [eval] in Ha.
+    replace (lookups [n_prefix; n_op] ((n_op, o) :: (n_prefix, P) :: en0)) with (Some [P; o]) in Ha by reflexivity.
+    (* subscriber: op, prefix, topic *)
+    rewrite run_body_cons in Hb. cbn [redecl_ok negb eval] in Hb. rewrite andb_true_r in Hb. rewrite EO in Hb.
+    destruct (mem n_op (fixed_params Go Sub op ++ vars_of (segments pfx))); [discriminate|].
+    rewrite run_body_cons in Hb. cbn [redecl_ok negb] in Hb. rewrite andb_true_r in Hb.
+    assert (PP : eval Go ps ((n_op, o) :: en0) = Some P).
+    { rewrite <- EP. unfold ps. apply eval_prefix_env. apply lookups_skip. exact MV. }
+    rewrite PP in Hb.
+    destruct (mem n_prefix (n_op :: fixed_params Go Sub op ++ vars_of (segments pfx))); [discriminate|].
+    rewrite run_body_cons in Hb. cbn [redecl_ok negb] in Hb. rewrite andb_true_r in Hb.
+    unfold te in Hb. cbn [eval] in Hb.
+    replace (lookups [n_prefix; n_op] ((n_prefix, P) :: (n_op, o) :: en0)) with (Some [P; o]) in Hb by reflexivity.
+    destruct (match unq 34 (pct_s ++ title sc ++ (if go_dot q then [46] else delim) ++ pct_s) with
+              | Some f => go_fmt f false [P; o] | None => None end) as [T|]; [|discriminate].
+    destruct (mem n_topic (n_op :: n_prefix :: fixed_params Go Pub op ++ vars_of (segments pfx))); [discriminate|].
+    destruct (mem n_topic (n_prefix :: n_op :: fixed_params Go Sub op ++ vars_of (segments pfx))); [discriminate|].
+    cbn [run_body] in Ha, Hb.
+    replace (lookup n_topic ((n_topic, T) :: (n_op, o) :: (n_prefix, P) :: en0)) with (Some T) in Ha by reflexivity.
+    replace (lookup n_topic ((n_topic, T) :: (n_prefix, P) :: (n_op, o) :: en0)) with (Some T) in Hb by reflexivity.
+    congruence.
+  - cbn [emit] in Ha, Hb. cbv zeta in Ha, Hb. unfold run_prog in Ha, Hb. cbn [p_consts p_body] in Ha, Hb.
+    destruct (run_consts Java [(n_DELIMITER, ELit delim)]) as [cs|]; [|discriminate].
+    match type of Ha with context [run_body Java ?b ?d ?e] => destruct (run_body Java b d e) as [e1|] eqn:E1; [|discriminate] end.
+    match type of Hb with context [run_body Java ?b ?d ?e] => destruct (run_body Java b d e) as [e2|] eqn:E2; [|discriminate] end.
+    rewrite (run_body_decl_indep _ _ _ _ _ _ _ E1 E2) in Ha. congruence.
+  - cbn [emit] in Ha, Hb. cbv zeta in Ha, Hb.
+    destruct (dart_prefix_raw delim pfx (segments pfx)) as [pr|]; [|discriminate].
+    unfold run_prog in Ha, Hb. cbn [p_consts p_body] in Ha, Hb.
+    destruct (run_consts Dart [(n_delimiter, ELit delim)]) as [cs|]; [|discriminate].
+    match type of Ha with context [run_body Dart ?b ?d ?e] => destruct (run_body Dart b d e) as [e1|] eqn:E1; [|discriminate] end.
+    match type of Hb with context [run_body Dart ?b ?d ?e] => destruct (run_body Dart b d e) as [e2|] eqn:E2; [|discriminate] end.
+    rewrite (run_body_decl_indep _ _ _ _ _ _ _ E1 E2) in Ha. congruence.
+  - cbn [emit] in Ha, Hb. cbv zeta in Ha, Hb. unfold run_prog in Ha, Hb. cbn [p_consts p_body] in Ha, Hb.
+    destruct (run_consts Py [(n_self_DELIMITER, ELit delim)]) as [cs|]; [|discriminate].
+    match type of Ha with context [run_body Py ?b ?d ?e] => destruct (run_body Py b d e) as [e1|] eqn:E1; [|discriminate] end.
+    match type of Hb with context [run_body Py ?b ?d ?e] => destruct (run_body Py b d e) as [e2|] eqn:E2; [|discriminate] end.
+    rewrite (run_body_decl_indep _ _ _ _ _ _ _ E1 E2) in Ha. congruence.
+Qed.
+
+(** known finding (Dart): a delimiter that starts with an identifier character directly after a
+    trailing prefix variable is swallowed by Dart's $name interpolation *)
+Lemma dart_delim_after_variable :
+  exists delim sc op pfx vals,
+    in_domain Go delim sc op pfx = true /\ in_domain Java delim sc op pfx = true /\
+    in_domain Py delim sc op pfx = true /\
+    vars_safe Dart Pub op (vars_of (segments pfx)) = true /\
+    topic fixed Go Pub delim sc op pfx vals = Some (spec_topic delim sc op pfx vals) /\
+    topic fixed Dart Pub delim sc op pfx vals = None /\
+    topic fixed Dart Sub delim sc op pfx vals = None.
+Proof.
+  exists (lit "_"), (lit "Events"), (lit "created"), (lit "foo.{user}"), [lit "bob"].
+  repeat split; vm_compute; reflexivity.
+Qed.
